@@ -145,13 +145,19 @@ def run(ctx):
                 else:
                     add("kernel", old, news[jn], pin, "", exp)
                     add("brand-gadget", old, news[jn], "", pin, exp)
+    skip_overlay = bool(os.environ.get("VERIF_SKIP_OVERLAY"))   # development aid for mutation demos only
+    if skip_overlay:
+        ctx.log("WARNING: snapstate.resolveChannel overlay driver skipped (VERIF_SKIP_OVERLAY set) -- not a complete run")
+        cases = []
     cfile = os.path.join(ctx.subdir("rc"), "cases.json")
     with open(cfile, "w") as f:
         json.dump(cases, f)
-    ov = goharness.overlay_test_build(ctx, "overlord/snapstate",
-                                      [os.path.join(common.HARNESS, "overlay", "snapstate", "zz_verif_reftables_test.go")])
-    rrows = rt.drive(ctx, ov, "TestVerifC34Resolve", os.path.join(os.path.dirname(cfile), "rc.ndjson"),
-                     env={"VERIF_CASES": cfile}, cwd=os.path.join(common.REPO, "overlord/snapstate"), timeout=1500)
+    rrows = []
+    if not skip_overlay:
+        ov = goharness.overlay_test_build(ctx, "overlord/snapstate",
+                                          [os.path.join(common.HARNESS, "overlay", "snapstate", "zz_verif_reftables_test.go")])
+        rrows = rt.drive(ctx, ov, "TestVerifC34Resolve", os.path.join(os.path.dirname(cfile), "rc.ndjson"),
+                         env={"VERIF_CASES": cfile}, cwd=os.path.join(common.REPO, "overlord/snapstate"), timeout=1500)
     n_rc = 0
     for r in rrows:
         if r.get("kind") != "resolve":
@@ -231,7 +237,7 @@ def run(ctx):
         "samples": samples,
         "table_evaluations": st["evaluations"],
         "table_differences": st["mismatches"],
-        "resolveChannel_cases": n_rc,
+        "resolveChannel_cases": n_rc if not skip_overlay else "SKIPPED (VERIF_SKIP_OVERLAY)",
         "law_check_on_real": {k: lst[k] for k in ("strings", "evaluations", "law_violations", "by_class")},
         "random_observations_validated_by_tlc": nobs,
         "random_differences": rand_bad,
